@@ -9,6 +9,7 @@ the documented values.  The output filter is an arbitrary operator `F` (`pdOut F
 only assume what C11 proves about `LPF` (DC preserving, length preserving).  Physical constants `kB`, `e` are parameters.
 -/
 import OptiVerif.Lemmas.PdInv
+import OptiVerif.Lemmas.PdFull
 
 set_option linter.unusedVariables false
 set_option linter.unusedSimpArgs false
@@ -369,5 +370,122 @@ theorem output_length (kB e fs r T Rl iDark Fn : ℝ) (sel : List Char) (dT dN :
       intro b l hl; cases b <;> simp [pick, hl]
     simp [pdOut, hF _, length_powerRow hx.1, specNoise, length_zipAdd, this, length_beatSN r n x hx,
       length_beatNN r n x hx, hT, hN]
+
+
+/-! ### end to end: PD's actual output filter (C11's model of scipy's forward–backward Bessel filter) -/
+
+open OptiVerif.PdFull OptiVerif.Filter in
+/-- `PD` = C11's `LPF` after the pre-filter model: the RNG requests are those of the pre-filter part, an exception of the
+    pre-filter part is the exception of `PD`, otherwise the filter runs on what was handed to it -/
+theorem pd_full_is_composition (secs : List (Sec ℝ)) (edge : ℕ) (kB e fs : ℝ) (r T Rl : PyVal ℝ) (sel : Option (List Char))
+    (iDark Fn : ℝ) (dT dN : List ℝ) (inp : Input (Cx ℝ)) :
+    (pdFull secs edge kB e fs r T Rl sel iDark Fn dT dN inp).reqs = (pd kB e fs r T Rl sel iDark Fn dT dN inp).reqs ∧
+      (∀ err, (pd kB e fs r T Rl sel iDark Fn dT dN inp).out = .error err →
+        (pdFull secs edge kB e fs r T Rl sel iDark Fn dT dN inp).out = .error err) ∧
+      (∀ p, (pd kB e fs r T Rl sel iDark Fn dT dN inp).out = .ok p →
+        (pdFull secs edge kB e fs r T Rl sel iDark Fn dT dN inp).out = lpfPre secs edge p) := by
+  refine ⟨rfl, ?_, ?_⟩
+  · intro err h; simp only [pdFull, h]
+  · intro p h; simp only [pdFull, h]
+
+open OptiVerif.PdFull OptiVerif.Filter in
+/-- **same operator, length**: on a record longer than the pad length the noise part is filtered by exactly the operator that
+    filters the signal part (`filtCore secs edge`, whatever the sections), and both keep the input's length -/
+theorem pd_filtered_length (secs : List (Sec ℝ)) (edge : ℕ) (p : Pre ℝ) (n : ℕ) (hs : p.sig.length = n) (hn : p.noise.length = n)
+    (he : edge < n) :
+    ∃ q, lpfPre secs edge p = .ok q ∧ q.sig = filtCore secs edge p.sig ∧ q.noise = filtCore secs edge p.noise ∧
+      q.sig.length = n ∧ q.noise.length = n := by
+  refine ⟨_, lpfPre_eq secs edge p (hs ▸ he) (hn ▸ he), rfl, rfl, ?_, ?_⟩
+  · simp [length_filtCore secs edge p.sig (hs ▸ he), hs]
+  · simp [length_filtCore secs edge p.noise (hn ▸ he), hn]
+
+open OptiVerif.PdFull OptiVerif.Filter in
+/-- **pd_cw_filtered**: a CW field of power `P` gives, AFTER PD's actual forward–backward filter, the constant `r·P·R_load` at
+    every sample — for any sections satisfying the hypotheses of C11's `dc_gain` (`sosfilt_zi` steady state, ΠΣb/Σa = 1;
+    evaluated by the harness on the coefficients scipy used) and a record longer than the pad length -/
+theorem pd_cw_filtered (secs : List (Sec ℝ)) (edge : ℕ) (hz : SteadyState secs 1) (hg : gainProd secs = 1)
+    (kB e fs r T Rl iDark Fn : ℝ) (sel : List Char) (dT dN : List ℝ) (x : Pd.Field (Cx ℝ)) (p : Pre ℝ) (P : ℝ) (n : ℕ)
+    (h : (pdBody kB e fs r T Rl iDark Fn sel dT dN x).out = .ok p) (hcw : powerRow x.sig = List.replicate n P)
+    (hnl : p.noise.length = n) (he : edge < n) :
+    ∃ q, lpfPre secs edge p = .ok q ∧ q.sig = List.replicate n (r * P * Rl) := by
+  have hs := (pd_cw kB e fs r T Rl iDark Fn sel dT dN x p P n h hcw).1
+  have hsl : p.sig.length = n := by rw [hs]; simp
+  obtain ⟨q, hq, hqs, _, _, _⟩ := pd_filtered_length secs edge p n hsl hnl he
+  refine ⟨q, hq, ?_⟩
+  rw [hqs, hs]
+  have hc := steadyChain_of_steadyState secs 1 hz
+  rw [hg, one_mul] at hc
+  exact filtCore_const secs hc edge n _ he
+
+open OptiVerif.PdFull OptiVerif.Filter in
+/-- **pd_filtered_linear_r_R**: after the filter, too, the signal part is linear in `r` and in `R_load` -/
+theorem pd_filtered_linear_r_R (secs : List (Sec ℝ)) (edge : ℕ) (kB e fs r T Rl iDark Fn a b : ℝ) (sel sel' : List Char)
+    (dT dN dT' dN' : List ℝ) (x : Pd.Field (Cx ℝ)) (p p' q q' : Pre ℝ)
+    (h : (pdBody kB e fs r T Rl iDark Fn sel dT dN x).out = .ok p)
+    (h' : (pdBody kB e fs (a * r) T (b * Rl) iDark Fn sel' dT' dN' x).out = .ok p')
+    (hq : lpfPre secs edge p = .ok q) (hq' : lpfPre secs edge p' = .ok q')
+    (he : edge < p.sig.length) (hn : edge < p.noise.length) (hn' : edge < p'.noise.length) :
+    q'.sig = q.sig.map (a * b * ·) := by
+  have hp := pd_linear_r_R kB e fs r T Rl iDark Fn a b sel sel' dT dN dT' dN' x p p' h h'
+  have hl : p'.sig.length = p.sig.length := by rw [hp]; simp
+  rw [lpfPre_eq secs edge p he hn] at hq
+  rw [lpfPre_eq secs edge p' (hl ▸ he) hn'] at hq'
+  obtain rfl := Except.ok.inj hq
+  obtain rfl := Except.ok.inj hq'
+  simp only [hp, filtCore_map_mul]
+
+open OptiVerif.PdFull OptiVerif.Filter in
+/-- **pd_filtered_quadratic**: after the filter, too, the signal part scales with `|c|²` when the field is multiplied by `c` -/
+theorem pd_filtered_quadratic (secs : List (Sec ℝ)) (edge : ℕ) (kB e fs r T Rl iDark Fn : ℝ) (c : Cx ℝ) (sel sel' : List Char)
+    (dT dN dT' dN' : List ℝ) (x x' : Pd.Field (Cx ℝ)) (p p' q q' : Pre ℝ) (hx' : x'.sig = scaleRows c x.sig)
+    (h : (pdBody kB e fs r T Rl iDark Fn sel dT dN x).out = .ok p)
+    (h' : (pdBody kB e fs r T Rl iDark Fn sel' dT' dN' x').out = .ok p')
+    (hq : lpfPre secs edge p = .ok q) (hq' : lpfPre secs edge p' = .ok q')
+    (he : edge < p.sig.length) (hn : edge < p.noise.length) (hn' : edge < p'.noise.length) :
+    q'.sig = q.sig.map (c.normSq * ·) := by
+  have hp := pd_quadratic kB e fs r T Rl iDark Fn c sel sel' dT dN dT' dN' x x' p p' hx' h h'
+  have hl : p'.sig.length = p.sig.length := by rw [hp]; simp
+  rw [lpfPre_eq secs edge p he hn] at hq
+  rw [lpfPre_eq secs edge p' (hl ▸ he) hn'] at hq'
+  obtain rfl := Except.ok.inj hq
+  obtain rfl := Except.ok.inj hq'
+  simp only [hp, filtCore_map_mul]
+
+open OptiVerif.PdFull OptiVerif.Filter in
+/-- **selected noise terms add linearly after the filter**: for each documented option the noise part of PD's output is the sum
+    of the separately filtered selected terms (beating terms and recorded draws, in volts) plus the dark-current offset
+    `i_dark·R_load`, which the filter passes unchanged (DC gain 1) -/
+theorem pd_filtered_noise_terms (secs : List (Sec ℝ)) (edge : ℕ) (hz : SteadyState secs 1) (hg : gainProd secs = 1)
+    (kB e fs r T Rl iDark Fn : ℝ) (sel : List Char) (dT dN : List ℝ) (n : ℕ) (x : Pd.Field (Cx ℝ))
+    (name : String) (sn nn th sh : Bool) (hrow : (name, sn, nn, th, sh) ∈ documented) (hsel : lower sel = name.toList)
+    (hx : FieldOK n x) (hRl : 0 < Rl) (hT : dT.length = n) (hN : dN.length = n) (he : edge < n) :
+    ∃ p q, (pdBody kB e fs r T Rl iDark Fn sel dT dN x).out = .ok p ∧ lpfPre secs edge p = .ok q ∧
+      q.noise =
+        zipAdd (zipAdd (zipAdd (zipAdd
+          (filtCore secs edge ((pick n sn (beatSN r x)).map (· * Rl)))
+          (filtCore secs edge ((pick n nn (beatNN r x)).map (· * Rl))))
+          (filtCore secs edge ((pick n th dT).map (· * Rl))))
+          (filtCore secs edge ((pick n sh dN).map (· * Rl))))
+          (List.replicate n (iDark * Rl)) := by
+  have hn0 : n ≠ 0 := by omega
+  have hsel' := selection_table kB e fs r T Rl iDark Fn sel dT dN n x name sn nn th sh hrow hsel hx hn0 hRl
+    (fun _ => hT) (fun _ => hN)
+  have hpk : ∀ b l, l.length = n → (pick n b l).length = n := by
+    intro b l hl; cases b <;> simp [pick, hl]
+  have lSN := hpk sn _ (length_beatSN r n x hx)
+  have lNN := hpk nn _ (length_beatNN r n x hx)
+  have lT := hpk th _ hT
+  have lN := hpk sh _ hN
+  have hc := steadyChain_of_steadyState secs 1 hz
+  rw [hg, one_mul] at hc
+  refine ⟨_, _, by rw [hsel'], lpfPre_eq secs edge _ ?_ ?_, ?_⟩
+  · simp [length_powerRow hx.1, he]
+  · simp [specNoise, length_zipAdd, lSN, lNN, lT, lN, he]
+  · simp only [specNoise, map_mul_zipAdd, List.map_replicate]
+    have l2 : ∀ a b : List ℝ, a.length = n → b.length = n → (zipAdd a b).length = n := by
+      intro a b ha hb; simp [length_zipAdd, ha, hb]
+    have lm : ∀ a : List ℝ, a.length = n → (a.map (· * Rl)).length = n := by intro a ha; simp [ha]
+    rw [filtCore_zipAdd, filtCore_zipAdd, filtCore_zipAdd, filtCore_zipAdd, filtCore_const secs hc edge n _ he]
+    all_goals simp [length_zipAdd, lSN, lNN, lT, lN]
 
 end OptiVerif.Props.C09
